@@ -35,21 +35,26 @@ import hashlib
 import inspect
 import json
 import multiprocessing as mp
+import multiprocessing.connection
 import os
 import random
 import re
 import shutil
+import signal
 import subprocess
 import sys
 import time
+import traceback
 import types
+import weakref
 
 sys.path.insert(0, os.path.abspath(os.path.join(os.path.dirname(os.path.abspath(__file__)), "..")))
 from bounded import common  # noqa: E402
 
 PROP = "C15"
 HERE = os.path.dirname(os.path.abspath(__file__))
-BUILD_DIR = os.path.abspath(os.path.join(HERE, "..", "build", "c15_openql_%d" % os.getpid()))  # private to this run; forked workers inherit it
+# private to this run; forked workers inherit it, child interpreters get a sub-directory of it through the environment
+BUILD_DIR = os.environ.get("C15_BUILD_DIR") or os.path.abspath(os.path.join(HERE, "..", "build", "c15_openql_%d" % os.getpid()))
 NPROC = 16
 
 # --------------------------------------------------------------------------------------------------
@@ -247,6 +252,30 @@ def image(comp, rep=lambda r: r, subs_first=False):
     return head + own
 
 
+def kinds_of(comp):
+    Composite = lib()["Composite"]
+    out = []
+    for op in listing(comp):
+        out.extend(kinds_of(op) if isinstance(op, Composite) else [type(op).__name__])
+    return out
+
+
+def image_stale(comp, cache, depth=0, subs_first=True):
+    """alternative reading, only to NAME a deviation: a sub-circuit whose sequence of operation kinds equals that of an
+    earlier sub-circuit at the same nesting depth is emitted as a copy of that earlier one"""
+    Composite = lib()["Composite"]
+    head, own = [], []
+    for op in listing(comp):
+        if isinstance(op, Composite):
+            key = (depth, tuple(kinds_of(op)))
+            if key not in cache:
+                cache[key] = image_stale(op, cache, depth + 1, subs_first)
+            (head if subs_first else own).extend(cache[key] * int(op.nr_of_repetitions))
+        else:
+            own.extend(leaf_image(op))
+    return head + own
+
+
 def shape(comp):
     """(number of listed nodes per level, recursively) -- build sanity"""
     Composite = lib()["Composite"]
@@ -271,44 +300,73 @@ _READ_ONLY = {"get_custom_instructions", "print_custom_instructions", "dump_cust
               "print_interaction_matrix", "write_interaction_matrix", "get_compiler", "has_compiler", "compile"}
 
 
+_ALL = {}              # id(obj) -> (weakref, "K"|"P", record): every live Kernel/Program object constructed under recording
+_CURRENT = {"spec": None}  # build program whose export is running (origin of the objects constructed now)
+
+
+def _register(what, obj, rec):
+    key = id(obj)
+
+    def gone(_ref, key=key):
+        _ALL.pop(key, None)
+    try:
+        _ALL[key] = (weakref.ref(obj, gone), what, rec)
+    except TypeError:  # not weak-referenceable: keep it alive instead (ids stay unique)
+        _ALL[key] = (lambda o=obj: o, what, rec)
+
+
 class Recorder:
     def __init__(self, strict=False):
         self.strict = strict  # model the duplicate-kernel-name check of the real openql.Program (fake Program only)
-        self.kernels = {}     # id -> {"obj", "name", "calls": [(meth, args, kwargs)]}
-        self.programs = {}    # id -> {"obj", "name", "kernels": [kernel rec], "unmodelled": []}
+        self.kernels = {}     # id -> {"name", "calls": [(meth, args, kwargs)], "origin"}
+        self.programs = {}    # id -> {"name", "kernels": [kernel rec], "unmodelled": [], "origin"}
+        self.keep = []        # the objects themselves (alive as long as this recorder)
         self.order = []       # creation order: ("K"|"P", name)
         self.events = []      # readable trace
         self.raised = None    # (what, meth, message)
         self.collision = None  # first kernel-name collision inside one program: "same-kernel-object" | "distinct-kernel-objects"
+        self.foreign = []     # objects used in this export that were constructed in an EARLIER export: (what, name, origin spec)
 
     def init(self, what, obj, args, kwargs):
         name = args[0] if args else kwargs.get("name")
-        rec = {"obj": obj, "name": name, "calls": [], "kernels": [], "unmodelled": []}
+        rec = {"name": name, "calls": [], "kernels": [], "unmodelled": [], "origin": _CURRENT["spec"]}
         (self.kernels if what == "K" else self.programs)[id(obj)] = rec
+        self.keep.append(obj)
+        _register(what, obj, rec)
         self.order.append((what, name))
         self.events.append([what + ".init", name])
 
+    def _find(self, what, obj):
+        own = (self.kernels if what == "K" else self.programs).get(id(obj))
+        if own is not None:
+            return own
+        ent = _ALL.get(id(obj))
+        if ent is not None and ent[1] == what and ent[0]() is obj:
+            if not any(f[2] is ent[2] for f in self.foreign):
+                self.foreign.append((what, ent[2]["name"], ent[2]["origin"], ent[2]))
+            return ent[2]
+        return None
+
     def call(self, what, obj, meth, args, kwargs):
         if what == "K":
-            rec = self.kernels.get(id(obj))
+            rec = self._find("K", obj)
             if rec is None:
                 return
             rec["calls"].append((meth, args, kwargs))
             self.events.append(["K." + meth, rec["name"], _js(args), _js(kwargs)])
             return
-        rec = self.programs.get(id(obj))
+        rec = self._find("P", obj)
         if rec is None:
             return
         arg = args[0] if args else None
-        aname = (self.kernels.get(id(arg)) or self.programs.get(id(arg)) or {}).get("name")
-        self.events.append(["P." + meth, rec["name"], aname])
-        if meth == "add_kernel" and id(arg) in self.kernels:
-            self._add(rec, [self.kernels[id(arg)]], meth)
-        elif meth == "add_program" and id(arg) in self.programs:
-            self._add(rec, list(self.programs[id(arg)]["kernels"]), meth)
-        elif meth == "add_for" and len(args) >= 2 and isinstance(args[1], int):
-            inner = [self.kernels[id(arg)]] if id(arg) in self.kernels else list(self.programs.get(id(arg), {"kernels": []})["kernels"])
-            rec["kernels"].extend(inner * args[1])
+        krec, prec = self._find("K", arg), self._find("P", arg)
+        self.events.append(["P." + meth, rec["name"], (krec or prec or {}).get("name")])
+        if meth == "add_kernel" and krec is not None:
+            self._add(rec, [krec], meth)
+        elif meth == "add_program" and prec is not None:
+            self._add(rec, list(prec["kernels"]), meth)
+        elif meth == "add_for" and len(args) >= 2 and isinstance(args[1], int) and (krec or prec) is not None:
+            rec["kernels"].extend(([krec] if krec is not None else list(prec["kernels"])) * args[1])
         else:
             rec["unmodelled"].append(meth)
 
@@ -417,7 +475,7 @@ class _Fake:
             _REC.init(self._what, self, a, k)
 
     def __getattr__(self, meth):
-        if meth.startswith("_"):
+        if meth.startswith("_") or meth in ("this", "thisown"):   # never pretend to be a SWIG proxy
             raise AttributeError(meth)
 
         def f(*a, **k):
@@ -454,8 +512,15 @@ def recording(mode):
 
 
 def export(circ, program, mode):
-    """run the real factory code; returns (recorder, program object or None, exception or None)"""
+    """run the real factory code; returns (recorder, program object or None, exception or None).
+    program["before"]: items of another build program that is exported first through the same default factory (same mode,
+    same calling convention) -- successive exports must not influence each other."""
     L = lib()
+    if program.get("before"):
+        first = {"items": program["before"], "circuit_id": program.get("circuit_id"), "as_structure": program.get("as_structure"),
+                 "check": "history"}
+        export(build(first), first, mode)
+    _CURRENT["spec"] = program
     with recording(mode) as rec:
         try:
             if program.get("as_structure"):
@@ -599,6 +664,9 @@ def classify_sequence(program, circ, required, observed):
             return "C15:construct:order:sub-circuit-executed-before-operations-listed-ahead-of-it"
         return "C15:construct:order:%s:other-permutation" % ("nested" if nested else "flat")
     if nested:
+        for sf in (True, False):
+            if observed == image_stale(root, {}, subs_first=sf):
+                return "C15:construct:stale-sub-program:sub-circuit-exported-as-copy-of-an-earlier-one-with-equal-kind-sequence"
         for label, f in (("once-regardless-of-count", lambda r: 1), ("count-minus-one", lambda r: r - 1),
                          ("count-plus-one", lambda r: r + 1), ("never", lambda r: 0)):
             for sf in (False, True):
@@ -693,11 +761,33 @@ def evaluate(program, primary="real", do_names=True, do_cqasm=True, do_cross=Tru
         res["probe_bad"].append("own walker does not list every added item exactly once at its level")
     required = image(root)
 
+    ctx = {"observed": "(the export raised)", "mode": primary}
+
+    def carried_over(*recs):
+        """an openql object constructed in an EARLIER export takes part in this one: report that (once), not its symptoms"""
+        for r_ in recs:
+            if r_.foreign:
+                what, oname, origin, _ = r_.foreign[0]
+                if not any(f["key"].startswith("C15:construct:state-carried-over") for f in res["failures"]):
+                    effect = "exported-gate-sequence-is-not-the-image-of-this-circuit" if ctx["observed"] != required else "gate-sequence-happens-to-be-right"
+                    fail("C15:construct:state-carried-over:openql-object-built-in-an-earlier-export-reused:" + effect,
+                         "successive exports through the default factory are independent: every Program / Kernel of the exported program is constructed during "
+                         "this export, and the executed sequence is the image of THIS circuit",
+                         "OpenQLCircuitFactoryManager.construct",
+                         {"reused": "%s %r, constructed while exporting %s" % ("Program" if what == "P" else "Kernel", oname, json.dumps(origin)), "executed": ctx["observed"]},
+                         {"reused": "nothing", "executed": required}, {"listing": shape(root), "recording": MODE_NAME[ctx["mode"]]})
+                return True
+        return False
+
     # ---- export, recorded
     mode = primary
     rec, out, exc = export(circ, program, primary)
     first = (rec, out, exc)
     res["evals"]["raises"] += 1
+    if exc is not None and rec.foreign:
+        ctx["observed"] = "%s: %s" % (type(exc).__name__, str(exc).split("\n")[0])
+        carried_over(rec)
+        return res
     if exc is not None:
         key = classify_raise(program, rec, exc)
         fail(key, "the export yields a program (for every build program, flat and nested, repetition counts >= 1)",
@@ -705,6 +795,10 @@ def evaluate(program, primary="real", do_names=True, do_cqasm=True, do_cross=Tru
              "a program executing " + json.dumps(required), {"calls_until_raise": rec.events[-12:], "recording": MODE_NAME[primary]})
         mode = "fake"
         rec, out, exc2 = export(circ, program, "fake")
+        if exc2 is not None and rec.foreign:
+            ctx["observed"] = "%s: %s" % (type(exc2).__name__, str(exc2).split("\n")[0])
+            carried_over(rec)
+            return res
         if exc2 is not None:
             key2 = classify_raise(program, rec, exc2)
             if key2 != key:
@@ -718,11 +812,14 @@ def evaluate(program, primary="real", do_names=True, do_cqasm=True, do_cross=Tru
              repr(out), "the openql.Program that was filled")
         return res
     observed, prec = rec.executed(out)
+    ctx.update(observed=observed, mode=mode)
     res["evals"]["image"] += 1
     if prec["unmodelled"]:
         fail("C15:recording-model:unmodelled-program-call", "only add_kernel/add_program/add_for are modelled", "OpenQLCircuitFactoryManager.construct",
              prec["unmodelled"], [], {"recording": MODE_NAME[mode]})
-    if observed != required:
+    if carried_over(first[0], rec):
+        pass
+    elif observed != required:
         fail(classify_sequence(program, circ, required, observed),
              "executed gate sequence of the exported program == in-order image of the listing "
              "(table instruction per supported operation, nothing for unsupported ones, repetition-count copies of a sub-circuit at its position)",
@@ -739,7 +836,9 @@ def evaluate(program, primary="real", do_names=True, do_cqasm=True, do_cross=Tru
         rec2, _, _ = export(circ, program, "fake")                    # same object again
         rec3, _, _ = export(build(program), program, "fake")          # same build program, fresh objects
         n1, n2, n3 = rec.names(), rec2.names(), rec3.names()
-        if n1 != n2:
+        if carried_over(rec2, rec3):
+            pass
+        elif n1 != n2:
             fail(names_key("same-object-exported-twice", program, n1, n2), "same circuit -> same program and kernel names",
                  "OpenQLCircuitFactoryManager.construct_uuid / construct", n2, n1)
         elif n1 != n3:
@@ -761,8 +860,11 @@ def evaluate(program, primary="real", do_names=True, do_cqasm=True, do_cross=Tru
                  "OpenQLCircuitFactoryManager.construct", diff.get("cqasm", diff), diff.get("recorded_calls_translated"))
     if do_cross:
         res["evals"]["hybrid"] += 1
-        o_real, o_hyb = outcome(*first), outcome(*export(circ, program, "hybrid"))
-        if o_real != o_hyb:
+        hyb = export(circ, program, "hybrid")
+        o_real, o_hyb = outcome(*first), outcome(*hyb)
+        if carried_over(hyb[0]):
+            pass
+        elif o_real != o_hyb:
             fail("C15:recording-model:hybrid-recording-differs-from-real-openql",
                  "export against the modelled Program (duplicate-name rule) has the same outcome (raise / names / executed sequence) as against the real openql.Program",
                  "OpenQLCircuitFactoryManager.construct", o_hyb, o_real)
@@ -921,6 +1023,24 @@ def t_space():
     N([L1("Ry180", 2, dur=4, dstrat="registry"), L1("DispersiveMeasure", 2, dur=9, dstrat="registry")])
     N([L1("SingleQubitOperation", 0, dur=4, dstrat="dynamic"), L1("Rx90", 0)])
     N([L1("VirtualPhase", 1, dur=4, dstrat="dynamic"), L1("TwoQubitOperation", 0, 1, dur=2, dstrat="registry")])
+    # ---- same-shaped sub-circuits with different content: siblings in one circuit, and successive exports ("before")
+    def S(items, **kw):
+        d = {"items": items, "circuit_id": None, "as_structure": False, "check": "siblings"}
+        d.update(kw)
+        out.append(d)
+
+    def sub(items, reps=1):
+        return {"sub": items, "reps": reps}
+    for r in (1, 2):
+        S([sub([L1("Rym90", 0)], r), sub([L1("Rym90", 1)], r)])
+        S([L1("Rx180", 0), sub([L1("Rym90", 0), L1("Hadamard", 0)], r), sub([L1("Rym90", 2), L1("Hadamard", 2)], r), L1("Ry90", 1)])
+        S([sub([L1("Wait", 0, dur=60)], r), sub([L1("Wait", 0, dur=100)], r)])
+        S([sub([L1("CPhase", 0, 1)], r), L1("Rx90", 4), sub([L1("CPhase", 2, 3)], r)])
+        S([sub([sub([L1("Rx90", 0)], 2)], r), sub([sub([L1("Rx90", 0)], 3)], r)])
+        S([sub([L1("Ry90", 1), sub([L1("Rx90", 0)], 1)], r), sub([L1("Ry90", 2), sub([L1("Rx90", 3)], 1)], r), L1("Hadamard", 5)])
+        for kw in ({}, {"circuit_id": "cid_same"}, {"as_structure": True}):
+            S([L1("Rx180", 3), sub([L1("Rym90", 4), L1("Wait", 4, dur=100)], r)], before=[L1("Rx180", 1), sub([L1("Rym90", 1), L1("Wait", 1, dur=60)], r)], **kw)
+            S([sub([sub([L1("Rx90", 0)], 3)], r), L1("Ry90", 1)], before=[sub([sub([L1("Rx90", 0)], 2)], r), L1("Ry90", 1)], **kw)
     for rs in ("dynamic", "registry"):
         N([{"sub": [L1("Rym90", 0)], "reps": 1, "rstrat": rs}, L1("Rx90", 0)])
         N([L1("Rx180", 0), {"sub": [wd, L1("Hadamard", 1)], "reps": 1, "rstrat": rs}])
@@ -952,9 +1072,27 @@ def phash(program):
     return hashlib.md5(json.dumps(program, sort_keys=True).encode()).hexdigest()[:16]
 
 
+_PROGRESS = None   # shared integer: index of the input under evaluation (lets the parent name the culprit of a dead / stuck worker)
+
+
+def task_program(task, idx):
+    """the idx-th input of the space the task belongs to, with its recording mode and names flag"""
+    kind = task["kind"]
+    if kind == "E":
+        prog = e_decode(idx, e_alphabet(task["tier"]), task["maxlen"])
+        return prog, ("real" if (len(prog["items"]) <= 2 or idx % task["real_every"] == 0) else "hybrid"), idx % task["names_every"] == 0
+    if kind == "R":
+        return r_program(task["seed"], idx), ("real" if idx % task["real_every"] == 0 else "hybrid"), True
+    return t_space()[idx], "real", True
+
+
 def run_chunk(task):
     setup_process()
     kind = task["kind"]
+    if kind == "P":
+        probes = []
+        platform_probes(probes)
+        return {"kind": "P", "probes": probes}
     if kind == "E":
         alphabet = e_alphabet(task["tier"])
         progs = (e_decode(i, alphabet, task["maxlen"]) for i in range(task["lo"], task["hi"]))
@@ -966,6 +1104,8 @@ def run_chunk(task):
            "nontrivial": set(), "probe_bad": collections.Counter(), "inputs": 0, "real": 0}
     for n, prog in enumerate(progs):
         idx = task["lo"] + n
+        if _PROGRESS is not None:
+            _PROGRESS.value = idx
         if kind == "E":
             names = idx % task["names_every"] == 0
             primary = "real" if (len(prog["items"]) <= 2 or idx % task["real_every"] == 0) else "hybrid"
@@ -1002,7 +1142,9 @@ def names_child(path):
     with open(path) as fh:
         progs = json.load(fh)
     out = []
-    for prog in progs:
+    for i, prog in enumerate(progs):
+        sys.stdout.write("C15PROGRESS %d\n" % i)
+        sys.stdout.flush()
         rec, _, _ = export(build(prog), prog, "fake")
         out.append(rec.names())
     shutil.rmtree(BUILD_DIR, ignore_errors=True)
@@ -1025,24 +1167,36 @@ def xproc_start(seed):
         json.dump(progs, fh)
     procs = []
     for hs in ("1", "2"):
-        env = dict(os.environ, PYTHONHASHSEED=hs, C15_NAMES_CHILD=path)
+        env = dict(os.environ, PYTHONHASHSEED=hs, C15_NAMES_CHILD=path, C15_BUILD_DIR=os.path.join(BUILD_DIR, "names_%s" % hs))
         procs.append((hs, subprocess.Popen([sys.executable, os.path.abspath(__file__)], env=env, stdout=subprocess.PIPE,
                                            stderr=subprocess.PIPE, text=True)))
     return progs, procs
 
 
-def xproc_finish(started, res):
+def xproc_finish(started, res, timeout=60.0):
     progs, procs = started
     runs = []
+    t_end = time.time() + timeout
     for hs, proc in procs:
         try:
-            so, se = proc.communicate(timeout=900)
+            so, se = proc.communicate(timeout=max(1.0, t_end - time.time()))
+            how = how_died(proc.returncode)
         except subprocess.TimeoutExpired:
             proc.kill()
-            so, se = "", "timeout"
+            so, se = proc.communicate()
+            how = "timeout"
         line = [ln for ln in so.splitlines() if ln.startswith("C15NAMES ")]
-        if proc.returncode != 0 or not line:
-            res.skip("names child process failed (PYTHONHASHSEED=%s): %s" % (hs, se[-300:]))
+        if how != "exit-0" or not line:
+            for _, p in procs:
+                if p.poll() is None:
+                    p.kill()
+            at = [int(ln.split()[1]) for ln in so.splitlines() if ln.startswith("C15PROGRESS ")]
+            culprit = progs[at[-1]] if at else progs[0]
+            key = "C15:construct:%s:names-child-interpreter" % ("timeout" if how == "timeout" else "worker-died:%s" % how)
+            res.fail(key, "a fresh interpreter (PYTHONHASHSEED=%s) exports %d build programs one after the other and terminates" % (hs, len(progs)),
+                     "OpenQLCircuitFactoryManager.construct", {"program": culprit, "index": at[-1] if at else None, "programs": len(progs)},
+                     "%s while exporting program %s of %d %s" % (how, at[-1] if at else "?", len(progs), se[-200:]), "exit 0",
+                     {"program": culprit, "key": key, "primary": "fake"})
             return 0
         runs.append(json.loads(line[0][len("C15NAMES "):]))
     n = 0
@@ -1058,7 +1212,11 @@ def xproc_finish(started, res):
 # --------------------------------------------------------------------------------------------------
 # main / replay
 # --------------------------------------------------------------------------------------------------
-def platform_probes(res):
+def platform_probes(out):
+    """out: list to which the probe records are appended (runs inside a worker: the parent never touches openql)"""
+    class _R:  # noqa
+        probes = out
+    res = _R
     setup_process()
     L = lib()
     try:
@@ -1091,9 +1249,206 @@ def platform_probes(res):
         res.probes.append({"assumption": "real openql platform can be instantiated offline and compiled", "ok": False, "error": repr(exc)})
 
 
+# --------------------------------------------------------------------------------------------------
+# robust scheduling: a dead or stuck worker never hangs the check
+# --------------------------------------------------------------------------------------------------
+def how_died(exitcode):
+    if exitcode is None:
+        return "unknown"
+    if exitcode < 0:
+        try:
+            return signal.Signals(-exitcode).name
+        except ValueError:
+            return "signal-%d" % -exitcode
+    return "exit-%d" % exitcode
+
+
+def _worker_loop(conn, progress):
+    global _PROGRESS
+    _PROGRESS = progress
+    try:
+        setup_process()
+        while True:
+            try:
+                task = conn.recv()
+            except EOFError:
+                break
+            if task is None:
+                break
+            progress.value = -1
+            try:
+                out = run_chunk(task)
+            except BaseException:  # noqa -- a bug of the harness, or an exception type the evaluation does not expect
+                out = {"harness_error": traceback.format_exc()}
+            conn.send(out)
+    except BaseException:  # noqa
+        traceback.print_exc()
+        os._exit(3)
+    os._exit(0)
+
+
+class _Worker:
+    def __init__(self, ctx):
+        self.conn, child = ctx.Pipe()
+        self.progress = ctx.RawValue("q", -1)
+        self.proc = ctx.Process(target=_worker_loop, args=(child, self.progress), daemon=True)
+        self.proc.start()
+        child.close()
+        self.task = None
+        self.seen = (-2, time.time())
+
+    def give(self, task):
+        self.task = task
+        self.progress.value = -1
+        self.seen = (-2, time.time())
+        self.conn.send(task)
+
+    def kill(self):
+        try:
+            self.proc.kill()
+            self.proc.join(5)
+        except Exception:  # noqa
+            pass
+        try:
+            self.conn.close()
+        except Exception:  # noqa
+            pass
+
+
+def cpu_seconds(pid):
+    """user + system CPU time of a process (Linux /proc); None if unknown"""
+    try:
+        with open("/proc/%d/stat" % pid) as fh:
+            f = fh.read().rsplit(")", 1)[1].split()
+        return (int(f[11]) + int(f[12])) / float(os.sysconf("SC_CLK_TCK"))
+    except Exception:  # noqa
+        return None
+
+
+def run_tasks(tasks, nproc, stall_s, cpu_budget, deadline, max_deaths, on_result, on_death):
+    """Every task ends in exactly one of: on_result(task, output) / on_death(task, idx, how) -> [new tasks] / returned as unfinished.
+    how: signal name or exit code of a dead worker, "timeout" when one input made no progress for stall_s seconds.
+    The phase ends early (-> unfinished tasks, reason) when the workers have used cpu_budget CPU seconds (so a slow machine does
+    not cut the enumeration short, code under test that burns CPU does), at the wall-clock deadline, or after max_deaths deaths."""
+    ctx = mp.get_context("fork")
+    pending = collections.deque(tasks)
+    workers = []
+    used, reason, deaths = {}, None, 0
+    try:
+        workers = [_Worker(ctx) for _ in range(max(1, min(nproc, len(pending))))]
+        while pending or any(w.task is not None for w in workers):
+            now = time.time()
+            for w in workers:
+                c = cpu_seconds(w.proc.pid)
+                if c is not None:
+                    used[w.proc.pid] = c
+            if now > deadline:
+                reason = "wall-clock limit of the run reached"
+                break
+            if sum(used.values()) > cpu_budget:
+                reason = "CPU budget of the run used up (%.0f CPU s)" % cpu_budget
+                break
+            if deaths > max_deaths:
+                reason = "more than %d workers died or got stuck" % max_deaths
+                break
+            for w in workers:
+                if w.task is None and pending:
+                    w.give(pending.popleft())
+            busy = [w for w in workers if w.task is not None]
+            mp.connection.wait([w.conn for w in busy] + [w.proc.sentinel for w in busy], timeout=0.5)
+            for i, w in enumerate(workers):
+                if w.task is None:
+                    continue
+                out, dead = None, None
+                try:
+                    if w.conn.poll():
+                        out = w.conn.recv()
+                except (EOFError, OSError):
+                    dead = "closed"
+                if out is not None:
+                    task, w.task = w.task, None
+                    if "harness_error" in out:
+                        raise RuntimeError("C15 harness error in worker:\n" + out["harness_error"])
+                    on_result(task, out)
+                    continue
+                if dead is None and not w.proc.is_alive():
+                    dead = "exited"
+                if dead is None:
+                    cur = w.progress.value
+                    if cur != w.seen[0]:
+                        w.seen = (cur, time.time())
+                    elif time.time() - w.seen[1] > stall_s:
+                        dead = "timeout"
+                if dead is not None:
+                    idx = w.progress.value
+                    w.kill()
+                    how = "timeout" if dead == "timeout" else how_died(w.proc.exitcode)
+                    deaths += 1
+                    pending.extendleft(reversed(on_death(w.task, idx, how) or []))   # re-submitted parts first: a second culprit shows up early
+                    workers[i] = _Worker(ctx)
+        unfinished = [w.task for w in workers if w.task is not None] + list(pending)
+        return unfinished, reason
+    finally:
+        for w in workers:
+            w.kill()
+
+
+def run_child(job, timeout):
+    """one job in a fresh interpreter: {"mode": "single", "program", "primary"} | {"mode": "chunk", "task"} -> (status, payload)"""
+    os.makedirs(BUILD_DIR, exist_ok=True)
+    path = os.path.join(BUILD_DIR, "job_%d_%d.json" % (os.getpid(), run_child.n))
+    run_child.n += 1
+    with open(path, "w") as fh:
+        json.dump(job, fh)
+    env = dict(os.environ, C15_CHILD=path, C15_BUILD_DIR=os.path.join(BUILD_DIR, "child_%d" % run_child.n))
+    proc = subprocess.Popen([sys.executable, os.path.abspath(__file__)], env=env, stdout=subprocess.PIPE, stderr=subprocess.DEVNULL, text=True)
+    return proc, time.time() + timeout
+
+
+run_child.n = 0
+
+
+def child_result(started, not_after=None):
+    proc, t_end = started
+    if not_after is not None:
+        t_end = min(t_end, not_after)
+    try:
+        so, _ = proc.communicate(timeout=max(1.0, t_end - time.time()))
+    except subprocess.TimeoutExpired:
+        proc.kill()
+        proc.communicate()
+        return "timeout", None
+    line = [ln for ln in so.splitlines() if ln.startswith("C15CHILD ")]
+    if proc.returncode != 0 or not line:
+        return how_died(proc.returncode), None
+    return "ok", json.loads(line[-1][len("C15CHILD "):])
+
+
+def child_main(path):
+    with open(path) as fh:
+        job = json.load(fh)
+    if job["mode"] == "single":
+        setup_process()
+        r = evaluate(job["program"], primary=job.get("primary", "real") if job.get("primary") in ("real", "hybrid") else "real")
+        out = {"skipped": r["skipped"], "failures": r["failures"], "sample": r["sample"]}
+    else:
+        agg = run_chunk(job["task"])
+        out = {"failures": list(agg["failures"].values()), "inputs": agg["inputs"]}
+    shutil.rmtree(BUILD_DIR, ignore_errors=True)
+    sys.stdout.write("C15CHILD " + json.dumps(out, default=str) + "\n")
+    sys.stdout.flush()
+    os._exit(0)
+
+
+DEATH_CAP = 4   # after this many dead / stuck workers the remainders of their chunks are no longer re-submitted (reported as skipped)
+
+
 def main():
     if os.environ.get("C15_NAMES_CHILD"):
         names_child(os.environ["C15_NAMES_CHILD"])
+        return 0
+    if os.environ.get("C15_CHILD"):
+        child_main(os.environ["C15_CHILD"])
         return 0
     args = common.parse_args()
     if args.replay:
@@ -1109,8 +1464,19 @@ def main():
     names_every = 8
     e_real_every, r_real_every = (32 if quick else 48), 10
     t_total = len(t_space())
+    ncpu = os.cpu_count() or 1
+    nproc = min(NPROC, ncpu)
+    # time bounds: fixed on a machine that is not overloaded, stretched (at most 4x) by the load found at start
+    try:
+        load_factor = min(4.0, max(1.0, os.getloadavg()[0] / ncpu))
+    except OSError:
+        load_factor = 1.0
+    stall_s = (15 if quick else 30) * load_factor           # one input normally takes < 0.1 s
+    base = 65 if quick else 540
+    cpu_budget = base * nproc          # normal need: ~500-650 CPU s (quick), ~5700 (thorough); on idle cores this is `base` seconds of wall time
+    deadline = res.t0 + 4 * base       # safety net for an overloaded machine
 
-    tasks = []
+    tasks = [{"kind": "P", "lo": 0, "hi": 0}]
     for lo in range(0, t_total, 16):
         tasks.append({"kind": "T", "lo": lo, "hi": min(t_total, lo + 16)})
     for lo in range(0, r_total, 250):
@@ -1122,69 +1488,135 @@ def main():
 
     os.makedirs(BUILD_DIR, exist_ok=True)
     started = xproc_start(args.seed)
-    ctx = mp.get_context("fork")
     evals = collections.Counter(); inputs = collections.Counter(); real_inputs = collections.Counter()
     nontriv = set(); probe_bad = collections.Counter()
     samples = {"T": [], "E": [], "R": []}
-    with ctx.Pool(min(NPROC, os.cpu_count() or 1)) as pool:
-        for agg in pool.imap_unordered(run_chunk, tasks, chunksize=1):
-            k = agg["kind"]
-            inputs[k] += agg["inputs"]
-            real_inputs[k] += agg["real"]
-            for c, n in agg["evals"].items():
-                evals[(k, c)] += n
-            nontriv |= agg["nontrivial"]
-            for r, n in agg["skipped"].items():
-                res.skipped[r] = res.skipped.get(r, 0) + n
-            for b, n in agg["probe_bad"].items():
-                probe_bad[b] += n
-            for key, f in agg["failures"].items():
-                old = res.failures.get(key)
-                if old is None or wsize(f) < wsize(old):
-                    res.failures[key] = f
-            samples[k].extend((agg["lo"], smp) for smp in agg["samples"])
+    deaths = []
 
-    platform_probes(res)
-    n_x = xproc_finish(started, res)
+    def merge_failure(f):
+        old = res.failures.get(f["key"])
+        if old is None or wsize(f) < wsize(old):
+            res.failures[f["key"]] = f
+
+    def on_result(task, agg):
+        k = agg["kind"]
+        if k == "P":
+            res.probes.extend(agg["probes"])
+            return
+        inputs[k] += agg["inputs"]
+        real_inputs[k] += agg["real"]
+        for c, n in agg["evals"].items():
+            evals[(k, c)] += n
+        nontriv.update(agg["nontrivial"])
+        for r, n in agg["skipped"].items():
+            res.skipped[r] = res.skipped.get(r, 0) + n
+        for b, n in agg["probe_bad"].items():
+            probe_bad[b] += n
+        for f in agg["failures"].values():
+            merge_failure(f)
+        samples[k].extend((agg["lo"], smp) for smp in agg["samples"])
+
+    def on_death(task, idx, how):
+        d = {"task": task, "idx": idx, "how": how, "isolated": None}
+        deaths.append(d)
+        if task["kind"] == "P" or idx < task["lo"]:
+            return []          # died before the first input (platform set-up / probes): nothing to isolate
+        prog, primary, _ = task_program(task, idx)
+        d["program"], d["primary"] = prog, primary
+        if len(deaths) > DEATH_CAP:
+            res.skipped["worker %s; rest of its chunk not evaluated (more than %d dead/stuck workers)" % (how, DEATH_CAP)] = \
+                res.skipped.get("worker %s; rest of its chunk not evaluated (more than %d dead/stuck workers)" % (how, DEATH_CAP), 0) + task["hi"] - task["lo"]
+            return []
+        d["isolated"] = run_child({"mode": "single", "program": prog, "primary": primary}, 20 * load_factor)
+        again = []
+        if idx > task["lo"]:
+            again.append(dict(task, hi=idx))          # results of the inputs before the culprit were lost with the worker
+        if idx + 1 < task["hi"]:
+            again.append(dict(task, lo=idx + 1))
+        return again
+
+    unfinished, why = run_tasks(tasks, nproc, stall_s, cpu_budget, deadline, DEATH_CAP, on_result, on_death)
+    for t in unfinished:
+        reason = "not evaluated: %s" % why
+        res.skipped[reason] = res.skipped.get(reason, 0) + max(1, t["hi"] - t["lo"])
+    final = time.time() + 20 * load_factor     # bounded waits for the child interpreters (started long ago)
+
+    # ---- dead / stuck workers: the culprit input alone in a fresh interpreter
+    for d in deaths:
+        task, idx, how = d["task"], d["idx"], d["how"]
+        cls = "timeout" if how == "timeout" else "worker-died:%s" % how
+        if "program" not in d:
+            key = "C15:construct:%s:before-the-first-input(platform-set-up-or-probes)" % cls
+            res.fail(key, "the harness process survives platform set-up and the probes of the real openql", "PlatformManager",
+                     {"task": task}, how, "no death, no stall", {"task": task, "key": key})
+            continue
+        status, payload = child_result(d["isolated"], final) if d["isolated"] is not None else ("not-run", None)
+        if status == "ok":
+            where = "only-after-earlier-exports-in-the-same-process"
+            for f in (payload or {}).get("failures", []):
+                merge_failure(f)
+        elif status == "not-run":
+            where = "not-isolated"
+        else:
+            where = "input-alone(%s)" % status
+        key = "C15:construct:%s:%s" % (cls, where)
+        f = {"key": key, "clause": "the export of every build program terminates and returns or raises a Python exception (the process exporting it neither dies nor hangs)",
+             "function": "OpenQLCircuitFactoryManager.construct", "observed": "worker %s while evaluating input %d of task %s; the same input alone in a fresh interpreter: %s"
+             % (how, idx, json.dumps(task), status), "required": "no death, no stall",
+             "witness": {"program": d["program"], "recording": MODE_NAME[d["primary"]], "task": task, "index": idx},
+             "replay_args": {"program": d["program"], "key": key, "primary": d["primary"], "task": dict(task, hi=idx + 1)}}
+        merge_failure(f)
+
+    n_x = xproc_finish(started, res, max(3.0, final - time.time()))
 
     def ev(clause, kinds="TER"):
         return sum(n for (k, c), n in evals.items() if c == clause and k in kinds)
     res.evaluations = sum(evals.values()) + n_x
     res.distinct = nontriv
     res.exhaustive = False
+    n_names_t = sum(p["check"] == "names" for p in t_space())
+    n_sib_t = sum(p["check"] == "siblings" for p in t_space())
     res.rule = (
         "Build programs (JSON) are built through DeclarativeCircuit.add and exported by the unchanged to_openql / OpenQLFactoryManager().construct on the library's own "
         "(real, offline) openql platform; all calls on openql.Kernel / openql.Program objects are recorded.  Recording 'real' = wrapped methods of the real SWIG classes "
         "(%d inputs: all of T, all E programs of <= 2 items, every %dth other E program, every %dth R program; also compiled to cQASM); recording 'hybrid' = real wrapped "
         "openql.Kernel + a recording stand-in for openql.Program that applies openql's duplicate-kernel-name rule (the bulk, because the real Program.add_program costs ~7 ms); "
-        "after a raise the export is repeated against plain recording stand-ins so that order and repetition are still evaluated.  "
+        "after a raise the export is repeated against plain recording stand-ins so that order and repetition are still evaluated.  All exports of one worker go through the "
+        "one default factory, so every input is also a 'successive export'; an openql object constructed in an earlier export that takes part in a later one is reported.  "
         "T: %d dedicated programs (each of the 13 supported kinds x qubits {0,1,2,5,16}; CPhase on all ordered pairs of {0,1,2,16}; barriers on 1..17 qubits; waits of "
         "0..100000 on all channels, 3 fractional durations; each of the 13 unsupported kinds alone and between supported operations; %d programs whose operations / sub-circuits use "
-        "DynamicDurationStrategy (fresh lambda per build), RegistryDurationStrategy, GlobalDurationStrategy, DynamicRepetitionStrategy or RegistryRepetitionStrategy, for the name clause).  "
+        "DynamicDurationStrategy (fresh lambda per build), RegistryDurationStrategy, GlobalDurationStrategy, DynamicRepetitionStrategy or RegistryRepetitionStrategy, for the name "
+        "clause; %d programs with same-shaped sub-circuits of different content (other qubits / wait durations / nested repetition counts) as siblings in one circuit or in two "
+        "successively exported circuits).  "
         "E: ALL sequences of 1..%d items over an alphabet of %d items = %d programs, enumerated completely: %d leaf items (%s) and %d sub-circuit items "
         "(%d bodies: 1-2 leaves over %s, plus 3 bodies containing a sub-sub-circuit; x repetition counts %s).  "
         "R: %d seeded random programs (1..8 items per level, nesting depth <= 3, repetition counts 1..4, all 26 kinds, 2..5 qubits, explicit "
         "FOLLOWED_BY/JOINED_START/JOINED_END relations to earlier items, optional circuit_id, IDeclarativeCircuit or bare structure as argument, 10%% exported after "
         "apply_modifiers(), 15%% decorated with dynamic / registry / global duration strategies and dynamic / registry repetition strategies).  "
-        "Non-trivial: contains a sub-circuit or at least two supported operations.  The property's space is infinite, hence exhaustive=false although E is complete."
-        % (sum(real_inputs.values()), e_real_every, r_real_every, t_total, sum(p["check"] == "names" for p in t_space()), maxlen, len(alphabet), e_total, n_leaf,
+        "Non-trivial: contains a sub-circuit or at least two supported operations.  The property's space is infinite, hence exhaustive=false although E is complete.  "
+        "Workers are supervised: a worker that dies or makes no progress for %.0f s is replaced, its current input is re-run alone in a fresh interpreter and reported; the pool "
+        "phase ends when the workers have used %.0f CPU s (normal need about half of that), after more than %d deaths, or after %.0f s wall time (inputs not evaluated by then are "
+        "listed under 'skipped')."
+        % (sum(real_inputs.values()), e_real_every, r_real_every, t_total, n_names_t, n_sib_t, maxlen, len(alphabet), e_total, n_leaf,
            ", ".join("%s%s" % (a["op"], tuple(a["q"])) for a in alphabet[:n_leaf]), len(alphabet) - n_leaf,
            (len(alphabet) - n_leaf) // (2 if quick else 3), "{Rym90(0), Hadamard(1), Rx180ef(0)}" if quick else "{Rym90(0), Hadamard(1), Rx180ef(0), Reset(2)}",
-           "{1,2}" if quick else "{1,2,3}", r_total))
+           "{1,2}" if quick else "{1,2,3}", r_total, stall_s, cpu_budget, DEATH_CAP, deadline - res.t0))
     for k in "TER":
         res.samples.extend(smp for _, smp in sorted(samples[k], key=lambda x: x[0])[:3])
     res.stand_ins = [
         {"function": "OpenQLCircuitFactoryManager.construct (intrf_openql_factory.py:62-99) with the four operation factories",
          "contract": "executed gate sequence (recorded Kernel calls, kernels in Program order) == in-order image of the own BFS listing; covers the clauses 'in listing order', "
-                     "'sub-circuits appear at the position where they were added', 'as many times as their repetition count', 'unsupported operations are omitted'",
+                     "'sub-circuits appear at the position where they were added', 'as many times as their repetition count', 'unsupported operations are omitted'; every "
+                     "Program / Kernel of the exported program was constructed during this export (successive exports are independent)",
          "bound": "E complete (%d programs: <= 3 items, nesting depth <= 2, repetition counts <= %d) + R %d random (<= 8 items per level, depth <= 3, counts <= 4)"
                   % (e_total, 2 if quick else 3, r_total),
          "evaluations": ev("image", "ER")},
         {"function": "operation-type -> instruction table (factory_manager.py:45-61); NameBased / Barrier / Wait / CompositeCPhase factories",
          "contract": "each supported kind alone -> exactly its documented instruction on its qubits; CPhase(c,t) -> cz(c,t), barrier{c,t}, update_ph c, update_ph t; a wait keeps its "
-                     "qubit and duration; each unsupported kind -> no instruction and no exception",
+                     "qubit and duration; each unsupported kind -> no instruction and no exception; same-shaped sub-circuits with different content (siblings / successive exports) "
+                     "each yield their own image",
          "bound": "T: %d programs, qubits <= 16, durations <= 100000" % t_total, "evaluations": ev("image", "T")},
-        {"function": "OpenQLCircuitFactoryManager.construct", "contract": "the export returns a program (does not raise)",
+        {"function": "OpenQLCircuitFactoryManager.construct", "contract": "the export returns a program (does not raise; the exporting process neither dies nor hangs)",
          "bound": "every T, E, R input (%d of them against the real openql.Program, the others against the duplicate-name model)" % sum(real_inputs.values()),
          "evaluations": ev("raises")},
         {"function": "OpenQLCircuitFactoryManager.construct_uuid / construct (names)",
@@ -1201,6 +1633,8 @@ def main():
                        "violations": dict(probe_bad)})
     res.probes.append({"assumption": "all planned inputs were evaluated (T %d, E %d, R %d)" % (t_total, e_total, r_total),
                        "ok": inputs["E"] == e_total and inputs["R"] == r_total and inputs["T"] == t_total, "inputs": dict(inputs), "real_recording": dict(real_inputs)})
+    res.probes.append({"assumption": "no worker process died or got stuck", "ok": not deaths,
+                       "deaths": [{"how": d["how"], "task": d["task"], "index": d["idx"]} for d in deaths]})
     shutil.rmtree(BUILD_DIR, ignore_errors=True)
     res.failures = dict(sorted(res.failures.items()))
     out = res.write(args.out)
@@ -1211,34 +1645,44 @@ def main():
 
 
 def replay(path):
+    """the recorded input is re-evaluated in a fresh child interpreter (a death of the child is an observation, not a crash of the replayer)"""
     rec, ra = common.load_replay(path)
-    key = (ra or {}).get("key") or rec.get("key")
-    program = (ra or {}).get("program") or (rec.get("witness") or {}).get("program")
-    if program is None:
+    ra = ra or {}
+    key = ra.get("key") or rec.get("key")
+    program = ra.get("program") or (rec.get("witness") or {}).get("program")
+    if program is None and not ra.get("task"):
         print("C15 replay: no program in %s" % path)
         return 2
-    found = []
+    found, status = [], "ok"
     if key and key.startswith("C15:names:not-deterministic:between-interpreter-runs"):
         res = common.Result(PROP)
         global xproc_programs
         xproc_programs = lambda seed: [program]  # noqa: E731
-        xproc_finish(xproc_start(0), res)
+        xproc_finish(xproc_start(0), res, 120)
         found = list(res.failures.values())
     else:
-        setup_process()
-        r = evaluate(program, primary="real")
-        if r["skipped"]:
-            print("C15 replay: input could not be built:", r["skipped"])
-            return 2
-        found = r["failures"]
-        if r["sample"]:
-            print("listing :", json.dumps(r["sample"]["listing"]))
-            print("required:", json.dumps(r["sample"]["required_image"]))
-            print("executed:", json.dumps(r["sample"]["executed"]))
+        history = key and (key.startswith("C15:construct:worker-died") or key.startswith("C15:construct:timeout")) and "input-alone" not in key and ra.get("task")
+        job = {"mode": "chunk", "task": ra["task"]} if history else {"mode": "single", "program": program, "primary": ra.get("primary", "real")}
+        status, payload = child_result(run_child(job, 90))
+        print("child interpreter (%s): %s" % ("chunk %s" % json.dumps(ra["task"]) if history else "single input", status))
+        if status == "ok":
+            if payload.get("skipped"):
+                print("C15 replay: input could not be built:", payload["skipped"])
+                shutil.rmtree(BUILD_DIR, ignore_errors=True)
+                return 2
+            found = payload["failures"]
+            if payload.get("sample"):
+                print("listing :", json.dumps(payload["sample"]["listing"]))
+                print("required:", json.dumps(payload["sample"]["required_image"]))
+                print("executed:", json.dumps(payload["sample"]["executed"]))
     shutil.rmtree(BUILD_DIR, ignore_errors=True)
     print("program :", json.dumps(program))
     for f in found:
         print("observed failure:", f["key"], "| observed:", json.dumps(f["observed"], default=str)[:600])
+    if status != "ok":
+        print("observed: the child interpreter evaluating this input ended with:", status)
+        print("VIOLATION property=%s replay=%s" % (PROP, path))
+        return 1
     still = [f for f in found if key is None or f["key"] == key]
     if still:
         print("VIOLATION property=%s replay=%s" % (PROP, path))
